@@ -112,7 +112,8 @@ static unsigned long junk_seed = 1;
 static int junk_pat;
 static long max_events = 200000, max_lex = 100000;
 static int realloc_moves = 1;
-static int allow_mask; /* bit0: %array yyless after yymore; bit1: buffer switch in yywrap with yymore pending; bit2: yyinput() again after it reported end of input; bit3: return to an in-memory buffer that was scanned to its end */
+static int resolving_wrap; /* resolve() is called for a yywrap op */
+static int allow_mask; /* bit0: %array yyless after yymore; bit1: buffer switch in yywrap with yymore pending; bit2: yyinput() again after it reported end of input; bit3: return to an in-memory buffer that was scanned to its end; bit4: yywrap sets yyin while a yy_scan_bytes/string buffer is current */
 
 static const sim_scanner_vt *scanners[32];
 static int nscanners;
@@ -636,6 +637,7 @@ static int buf_new(sim_inst *I, void *b, int src, void *usermem)
 	I->bufs[h].onstack = 0;
 	I->bufs[h].usermem = usermem;
 	I->bufs[h].exhausted = 0;
+	I->bufs[h].memlen = -1;
 	return h;
 }
 static void model_switch(sim_inst *I, int h)
@@ -689,6 +691,14 @@ void sim_buf_created(void *b, int src, void *usermem, int how)
 	else if (how == 2)
 		model_push(I, h);
 	ev("B new h=%d src=%d how=%d", h, src, how);
+}
+
+/* the buffer just created holds a scanner-owned copy of len bytes */
+void sim_buf_memlen(int len)
+{
+	sim_inst *I = sim_cur;
+	if (I->nbufs > 0)
+		I->bufs[I->nbufs - 1].memlen = len;
 }
 
 void sim_sync_current(void *b, FILE *in)
@@ -909,8 +919,17 @@ static int resolve(sim_inst *I, const plan_op *po, sim_xop *x, int in_action)
 	case SOP_NEWFILE:
 		if (po->code == SOP_NEWFILE && !(in_action && I->is_eof))
 			return 0;
-		if (I->depth > 0 && I->bufs[I->stack[I->depth - 1]].src == -1)
-			return 0;
+		if (I->depth > 0 && I->bufs[I->stack[I->depth - 1]].src == -1) {
+			/* yywrap() may answer the end of a yy_scan_bytes/yy_scan_string
+			 * buffer with a new yyin: the scanner then reads the stream
+			 * into that buffer, which it owns.  Buffers shorter than two
+			 * bytes cannot be grown by doubling and user-owned ones
+			 * (yy_scan_buffer) not at all: not generated. */
+			sim_bufent *cb = &I->bufs[I->stack[I->depth - 1]];
+			if (!((allow_mask & 16) && po->code == SOP_SET_YYIN && in_action && I->is_eof && resolving_wrap
+			      && cb->memlen >= 2 && !cb->usermem && !I->prev_more))
+				return 0;
+		}
 		/* the caller may point yyin elsewhere before the first yylex call,
 		 * after yylex returned 0, or from yywrap / an <<EOF>> action */
 		if (po->code == SOP_SET_YYIN && !in_action && I->lexed && !I->at_eof)
@@ -987,14 +1006,19 @@ void sim_enter(int rule, int is_eof, const char *text, int leng, int start,
 	I->is_eof = is_eof;
 	I->cur_rule = rule;
 	I->cur_len = leng;
-	if (!I->rejected) {
-		/* (after REJECT the next alternative keeps the same yymore prefix) */
-		I->more_prefix = I->prev_more ? I->prev_len : 0;
+	if (is_eof) {
+		/* an <<EOF>> action has no text: a pending yymore() stays pending */
+		I->more_prefix = 0;
+	} else {
+		if (!I->rejected) {
+			/* (after REJECT the next alternative keeps the same yymore prefix) */
+			I->more_prefix = I->prev_more ? I->prev_len : 0;
+		}
+		if (I->more_prefix > leng)
+			I->more_prefix = leng;
+		I->prev_more = 0;
+		I->rejected = 0;
 	}
-	if (I->more_prefix > leng)
-		I->more_prefix = leng;
-	I->prev_more = 0;
-	I->rejected = 0;
 	I->did_textop = I->did_less = I->did_bufop = I->did_more = I->n_ops = 0;
 	I->input_eof = 0;
 	I->provided_input = 0;
@@ -1054,7 +1078,8 @@ void sim_leave(void)
 {
 	sim_inst *I = sim_cur;
 	/* remember yyleng at the end of an action that called yymore() */
-	I->prev_len = I->cur_len;
+	if (!I->is_eof)
+		I->prev_len = I->cur_len;
 	I->in_action = 0;
 }
 
@@ -1106,10 +1131,11 @@ int sim_wrap_next(sim_xop *x)
 			 * buffer now and coming back later yields a phantom NUL token
 			 * (known finding K-more-eof-switch, probed separately) */
 			ok = 0;
-		else if (po->code == SOP_SET_YYIN) {
+		else {
+			resolving_wrap = 1;
 			ok = resolve(I, po, x, 1);
-		} else
-			ok = resolve(I, po, x, 1);
+			resolving_wrap = 0;
+		}
 		I->in_action = save_in;
 		I->is_eof = save_eof;
 		if (!ok)
